@@ -31,10 +31,11 @@ func init() {
 // simulation of its own (once): if the code under test is broken so badly that this panics or hangs, the simulator
 // contains it and the scenarios proper report it.
 var warmOnce sync.Once
+var warmFailure *hx.Outcome
 
 func warmUp(t *testing.T) {
 	warmOnce.Do(func() {
-		hx.RunSim(t, simrt.Config{Seed: 1, MaxSteps: 20000, YieldPermille: 1000}, nil, func(s *simrt.Sim) {
+		res := hx.RunSim(t, simrt.Config{Seed: 1, MaxSteps: 20000, YieldPermille: 1000}, nil, func(s *simrt.Sim) {
 			wg := &simsync.WaitGroup{}
 			r := async.NewRunnerQ(async.WithQSize(1), async.WithWaitGroup(wg))
 			r.Run()
@@ -42,6 +43,16 @@ func warmUp(t *testing.T) {
 			r.Stop()
 			r.WaitStop()
 		})
+		// the warm-up is a plain use of the runner (start, one valid call, stop): if even that fails, every scenario of
+		// the process reports it (the type cache it fills would otherwise hide a first-call failure from the scenarios)
+		if o := hx.FromResult(res); o.Class != "" || res.Stuck {
+			if o.Class == "" {
+				o.Class, o.Msg = "stuck", hx.Unfinished(res)
+			}
+			o.Msg = "the runner's first use in the process (start, one call with a valid function, stop) failed: " + o.Msg
+			o.LogHash, o.Nontrivial = "warm-up", true
+			warmFailure = o
+		}
 	})
 }
 
@@ -100,22 +111,24 @@ func drawC14(rt *rapid.T) interface{} {
 }
 
 type callRec struct {
-	c          laneCall
-	task       *simrt.Task
-	ctx        *hx.SimCtx
-	invokeEv   int64
-	acceptedEv int64
-	startEv    int64
-	returnEv   int64
-	starts     int
-	ends       int
-	lane       int
-	laneTask   int
-	afterStop  bool
-	inflight   bool
-	returned   bool
-	val        interface{}
-	err        error
+	c            laneCall
+	task         *simrt.Task
+	ctx          *hx.SimCtx
+	invokeEv     int64
+	acceptedEv   int64
+	startEv      int64
+	returnEv     int64
+	starts       int
+	ends         int
+	lane         int
+	laneTask     int
+	afterStop    bool
+	overlapped   bool // another call was in the making at some moment of this call
+	idleAtInvoke bool // when this call was invoked every earlier call had come and gone completely
+	inflight     bool
+	returned     bool
+	val          interface{}
+	err          error
 }
 
 type calleeFn func(ctx context.Context, lane int) (interface{}, error)
@@ -222,6 +235,9 @@ func errFor(id int) error       { return fmt.Errorf("error-of-%d", id) }
 func runC14(t *testing.T, sci interface{}, keepLog bool) *hx.Outcome {
 	sc := sci.(*C14Scenario)
 	warmUp(t)
+	if warmFailure != nil {
+		return warmFailure
+	}
 	waitVia = sc.WaitVia
 	if waitVia == "" {
 		waitVia = "both"
@@ -377,6 +393,19 @@ func runC14(t *testing.T, sci interface{}, keepLog bool) *hx.Outcome {
 					ev++
 					r.invokeEv = ev
 					r.afterStop = stopReturned
+					r.idleAtInvoke = true
+					for _, a := range recs {
+						if a == r {
+							continue
+						}
+						if a.inflight {
+							a.overlapped, r.overlapped = true, true
+						}
+						refused := a.returned && a.err != nil && (ex.Closed(a.err) || ex.Full(a.err))
+						if !(a.returned && (refused || (a.starts == 1 && a.ends == 1))) {
+							r.idleAtInvoke = false // an earlier call may still sit in the queue (abandoned by its caller) or be running
+						}
+					}
 					r.inflight = true
 					me.EnterAPI("AsyncCall")
 					v, err := ex.Call(cx, c.Hash, callee)
@@ -407,6 +436,12 @@ func runC14(t *testing.T, sci interface{}, keepLog bool) *hx.Outcome {
 						}
 					case ex.Full(err):
 						s.Count("refused-full")
+						// a queue of size >= 1 cannot be full when every earlier call has come and gone completely (refused, or
+						// executed to its end and answered) and no other call was invoked while this one was being made
+						idle := r.idleAtInvoke && !r.overlapped
+						if idle && !stopInvoked {
+							s.Fail("refused-as-full-while-idle", "call %d was refused as 'queue full' although the executor was idle and its queue (size %d) empty", c.ID, sc.QSize)
+						}
 					case errors.Is(err, context.Canceled) || errors.Is(err, context.DeadlineExceeded):
 						if !cx.Ended() {
 							s.Fail("foreign-context-error", "call %d got a context error although its own context is live", c.ID)
